@@ -65,7 +65,7 @@ def _bounds(I, arr, k, i, env, what):
 
 def arr_getitem(I, arr, idx, env):
     idx = idx if isinstance(idx, tuple) else (idx,)
-    if Ellipsis in idx:
+    if any(x is Ellipsis for x in idx):
         raise Unsupported("ellipsis index on a symbolic array")
     if all(not isinstance(x, (SliceObj, SymArr, PList)) and x is not None for x in idx):
         if len(idx) == len(arr.shape):
